@@ -3,7 +3,9 @@ from __future__ import annotations
 
 import collections
 import io
+import logging
 import os
+import re
 import struct
 import tempfile
 
@@ -25,17 +27,30 @@ STREAMS = {
     "mz": {"relevant": True, "desc": "pe.find_mz_offset on a XorEncodedFile view vs the modelled check"},
     "detect": {"relevant": True, "desc": "XorEncodedFile.from_file: needle hits and MZ verdicts passed as parameters"},
     "detectm": {"relevant": True, "desc": "from_file with the MZ check modelled in Lean (needle hits passed)"},
-    "detectfull": {"relevant": True, "desc": "from_file entirely modelled (needle scan by the C15 model)"},
+    "detectfull": {"relevant": True, "desc": "from_file entirely modelled (C09.fromFileReal: real block scanner = C15 model, every buffer size)"},
+    "detectlog": {"relevant": False, "desc": "from_file entirely modelled, plus its DEBUG log: eof_shellcode offsets, nonce offsets, "
+                  "candidates tried in order with their counts (internal observables; oracle = real_hits_characterised / detect_sound_real)"},
+    "histneg": {"relevant": False, "desc": "histories containing seeks whose logical target is negative (into stub/nonce/size, or before "
+                "raw offset 0) on all three file kinds; seek return values, tell and reads compared (oracle = seek_exact / "
+                "read_advances_everywhere; with NEGSEEK_IS_DEFECT the oracle is the plain file instead)"},
 }
+# The view lets a seek land at a negative logical position (inside the stub / nonce / size dword) where a plain file raises
+# or clamps (Props/C09.lean: negative_seek_exact, history_refines_all_seeks_false).  Reported as candidate finding
+# `C09-negative-seek-enters-header`; while it is not listed in known_findings.json the histneg oracle states the ACTUAL behaviour.
+# Set to True (after adding the finding) to judge histneg against the plain file: every such input then maps to the known id.
+NEGSEEK_IS_DEFECT = False
+NEGSEEK_ID = "C09-negative-seek-enters-header"
 TRUSTED = [
     "tools/harness/c09.py generators, adapters and the BytesIO replay oracle; line protocol parsing in lean/CsVerif/Driver/C09.lean",
     "Model/PyFile.lean (io.BytesIO / buffered and unbuffered OS files) and C20.xor are modelled, validated by the hist*/nonce streams on "
     "both file kinds; collections.Counter.most_common is modelled (stream counter); dissect.cstruct struct reads are modelled as "
-    "read(sizeof)+EOFError (stream mz); iter_find_needle is a parameter of the theorems (stream detectfull instantiates it with the C15 model)",
+    "read(sizeof)+EOFError (stream mz); iter_find_needle is the C15 model (C15.iterFindNeedle, proved exact/sound/complete there), "
+    "instantiated in C09.fromFileReal (streams detectfull/detectlog, buffer sizes 1..8192)",
 ]
 ASSUMPTIONS = [
     "raw layout stub ++ nonce(4) ++ size(4) ++ enc; the refinement theorem covers histories whose seeks land at logical positions >= 0, "
-    "including beyond the end (seeks below 0 are undefined: BytesIO and OS files disagree there)",
+    "including beyond the end; seeks below logical 0 are characterised exactly (seek_exact, negative_seek_exact) but do NOT refine a "
+    "plain file: the view enters the stub/header instead of raising/clamping (stream histneg)",
     "nonce_offset is a natural number; read(n) is called with an int or None",
 ]
 RULE = ("exhaustive (len<=9) x (seek p, read n, tell, read m, tell) + seeded random histories on BytesIO / buffered / unbuffered temp files; "
@@ -90,15 +105,23 @@ def py_nonce_offsets(raw: bytes, real_size, maxrange: int):
     return out
 
 
-def py_marker_hits(raw: bytes, maxrange: int):
-    """offsets of ff ff ff reported by the (repaired) needle scan for files shorter than one I/O block."""
-    hits, p = [], raw.find(MARKER)
-    while p != -1:
-        if maxrange and p > maxrange:
-            break
-        hits.append(p)
-        p = raw.find(MARKER, p + 1)
-    return hits
+def occurrences(raw: bytes, needle: bytes):
+    return [i for i in range(len(raw) - len(needle) + 1) if raw[i:i + len(needle)] == needle]
+
+
+def py_marker_hits(raw: bytes, maxrange: int, bs: int = 8192):
+    """offsets of ff ff ff the needle scan must report (Props/C09.lean real_hits_characterised): all occurrences without a limit;
+    with a limit those starting at or before it when the buffer holds the limited range (bs >= maxrange + 3); for smaller
+    buffers the occurrences ending at or before the limit are certain, those starting up to 2*maxrange depend on the block
+    boundaries (None = outside the oracle's domain when there is one), later ones are never reported."""
+    occ = occurrences(raw, MARKER)
+    if not maxrange:
+        return occ
+    if bs >= maxrange + 3:
+        return [h for h in occ if h <= maxrange]
+    if any(maxrange - 3 < h <= 2 * maxrange for h in occ):
+        return None
+    return [h for h in occ if h + 3 <= maxrange]
 
 
 def py_most_common(xs):
@@ -112,11 +135,12 @@ def py_most_common(xs):
     return sorted(order, key=lambda k: -cnt[k])
 
 
-def py_detect(raw: bytes, maxrange: int):
+def py_detect(raw: bytes, maxrange: int, bs: int = 8192):
     """expected from_file result: nonce offset, 'ValueError', or None when a candidate is outside the oracle's domain."""
-    if len(raw) > io.DEFAULT_BUFFER_SIZE:
+    hits = py_marker_hits(raw, maxrange, bs)
+    if hits is None:
         return None
-    cands = py_most_common([h + 3 for h in py_marker_hits(raw, maxrange)] + py_nonce_offsets(raw, None, maxrange))
+    cands = py_most_common([h + 3 for h in hits] + py_nonce_offsets(raw, None, maxrange))
     for c in cands:
         if c + 8 > len(raw):
             return None
@@ -374,14 +398,82 @@ def gen(tier, rng, shard, nshards):
             img = pe_image(rng, total=rng.randrange(9000, 12000))
             raw, off = mk_raw(rng, img, off, rng.random() < 0.5, rng.random() < 0.8)
         hits = real_hits(raw, maxrange)
-        cands = sorted({h + 3 for h in py_marker_hits(raw, maxrange)} | set(py_nonce_offsets(raw, None, maxrange)))
+        cands = sorted({h + 3 for h in real_hits(raw, maxrange)} | set(py_nonce_offsets(raw, None, maxrange)))
         tag = "none" if off is None else str(off)
         if len(cands) <= 12:
             passing = [c for c in cands if real_mz_ok(raw, c)]
             yield "detect", f"detect {kind} {maxrange} {C.hx(raw)} {C.ints(hits)} {C.ints(passing)} {tag}"
         if len(cands) <= 6:
             yield "detectm", f"detectm {kind} {maxrange} {C.hx(raw)} {C.ints(hits)} {tag}"
-            yield "detectfull", f"detectfull {kind} {maxrange} {C.hx(raw)} {rng.choice([io.DEFAULT_BUFFER_SIZE, 8192, 64, 7, 4096])} {tag}"
+            yield "detectfull", f"detectfull {kind} {maxrange} {C.hx(raw)} {rng.choice(BUFSIZES)} {tag}"
+            yield "detectlog", f"detectlog {kind} {maxrange} {C.hx(raw)} {rng.choice(BUFSIZES)} {tag}"
+
+    # ---- the limit of the marker scan is compared with block-relative indices: markers around `maxrange` and up to
+    #      2*maxrange, small maxrange, every buffer size (the answer legitimately depends on the buffer size there)
+    for _ in range((6000 if thorough else 400) // nshards):
+        maxrange = rng.choice([16, 16, 24, 64, 100, 0])
+        m = maxrange or 40
+        stublen = rng.choice([m - 3, m - 1, m, m + 1, m + 2, m + 3, m + 4, 2 * m, 2 * m + 3, 2 * m + 4, rng.randrange(3, 2 * m + 8)])
+        img = pe_image(rng) if rng.random() < 0.85 else C.rbytes(rng, 40)
+        raw, off = mk_raw(rng, img, max(stublen, 3), True, rng.random() < 0.5)
+        raw = bytearray(raw)
+        for _ in range(rng.choice([0, 0, 1, 2])):
+            j = rng.randrange(0, max(off - 2, 1))
+            raw[j:j + 3] = MARKER
+        bs = rng.choice([1, 2, 3, 4, 5, 7, m - 1, m, m + 1, m + 2, m + 3, m + 4, 2 * m, 8192])
+        kind = rng.choice(["B", "B", "F"])
+        yield "detectlog", f"detectlog {kind} {maxrange} {C.hx(bytes(raw))} {max(bs, 1)} {off}"
+        if rng.random() < 0.5:
+            yield "detectfull", f"detectfull {kind} {maxrange} {C.hx(bytes(raw))} {max(bs, 1)} {off}"
+
+    # ---- seeks to negative logical positions: (kind) x (whence) x (target inside the header / before raw 0) x (state before)
+    k2 = 0
+    for kind in ["B", "F", "U"]:
+        for stublen in (0, 5):
+            for plen in (0, 3, 9):
+                base = stublen + 8
+                for wh in (0, 1, 2):
+                    for t in (-1, -4, -5, -8, -base, -base - 1, -base - 100):
+                        for p0 in (0, min(2, plen), plen, plen + 3):
+                            k2 += 1
+                            if not thorough and k2 % 2:
+                                continue
+                            if not mine():
+                                continue
+                            raw, off = mk_raw(rng, C.rbytes(rng, plen), stublen, good_size=False)
+                            ops = [("s", p0, 0)] + neg_seek_probe(rng, plen, p0, t, wh)
+                            yield "histneg", f"histneg {kind} {off} {C.hx(raw)} {fmt_ops(ops)}"
+    for _ in range((20000 if thorough else 1500) // nshards):
+        plen = rng.randrange(0, 30)
+        stublen = rng.choice([0, 1, 2, 3, 4, 7, 8, 33, rng.randrange(0, 64)])
+        base = stublen + 8
+        raw, off = mk_raw(rng, C.rbytes(rng, plen), stublen, good_size=False)
+        ops, p = [], 0
+        for _ in range(rng.randrange(1, 5)):
+            if rng.random() < 0.5:
+                ops += rand_history(rng, plen, rng.randrange(1, 4), "in")
+                p = None
+            if p is None:
+                p = rng.randrange(0, plen + 2)
+                ops.append(("s", p, 0))
+            t = rng.choice([-1, -2, -3, -4, -5, -7, -8, -9, -base, -base + 1, -base - 1, -base - rng.randrange(2, 3000),
+                            -rng.randrange(1, base + 1)])
+            ops += neg_seek_probe(rng, plen, p, t, rng.choice([0, 1, 2]))
+            p = None
+        yield "histneg", f"histneg {rng.choice(['B', 'F', 'U'])} {off} {C.hx(raw)} {fmt_ops(ops)}"
+
+
+BUFSIZES = [io.DEFAULT_BUFFER_SIZE, 8192, 4096, 1027, 1026, 1024, 64, 7, 4, 3, 2, 1]
+
+
+def neg_seek_probe(rng, plen: int, p: int, t: int, wh: int):
+    """from logical position p: seek to logical target t (< 0) by `whence`, look around, come back"""
+    off = t if wh == 0 else (t - p if wh == 1 else t - plen)
+    n1 = rng.choice([0, 1, 2, 3, 4, 5, 7, 8, 9, 13, -1, None])
+    n2 = rng.choice([0, 1, 3, 4, 5, -1, None, plen + 20])
+    back = rng.randrange(0, plen + 2)
+    return [("s", off, wh), ("t",), ("r", n1), ("t",), ("s", -1, 1), ("t",), ("r", n2), ("t",),
+            ("s", back, 0), ("r", rng.choice([1, 4, 5, None])), ("t",)]
 
 
 def real_hits(raw: bytes, maxrange: int):
@@ -435,11 +527,11 @@ def run_history(xf, ops, with_ret: bool):
 
 def impl(stream, line):
     w = line.split()
-    if stream in ("hist", "histret", "histeof", "histwild"):
+    if stream in ("hist", "histret", "histeof", "histwild", "histneg"):
         fh = open_kind(w[1], C.unhx(w[3]))
         try:
             xf = XorEncodedFile(fh, nonce_offset=int(w[2]))
-            return run_history(xf, parse_ops(w[4]), stream in ("histret", "histwild"))
+            return run_history(xf, parse_ops(w[4]), stream in ("histret", "histwild", "histneg"))
         finally:
             fh.close()
     if stream == "nonce":
@@ -480,7 +572,58 @@ def impl(stream, line):
         finally:
             io.DEFAULT_BUFFER_SIZE = saved
             fh.close()
+    if stream == "detectlog":
+        from check import canon_exc
+
+        fh = open_kind(w[1], C.unhx(w[3]))
+        saved = io.DEFAULT_BUFFER_SIZE
+        cap = _LogCapture()
+        lg = xordecode.logger
+        old_level, old_prop = lg.level, lg.propagate
+        lg.addHandler(cap)
+        lg.setLevel(logging.DEBUG)
+        lg.propagate = False
+        try:
+            io.DEFAULT_BUFFER_SIZE = int(w[4])
+            try:
+                xf = XorEncodedFile.from_file(fh, maxrange=int(w[2]))
+                head = f"ok {xf.nonce_offset} {fh.tell()} {xf.tell()}"
+            except ValueError as e:
+                head = "exc " + canon_exc(e)
+            return f"{head} {C.ints(cap.eofs)} {C.ints(cap.nonces)} {C.ints(cap.tried)} {C.ints(cap.counts)}"
+        finally:
+            io.DEFAULT_BUFFER_SIZE = saved
+            lg.removeHandler(cap)
+            lg.setLevel(old_level)
+            lg.propagate = old_prop
+            fh.close()
     raise RuntimeError("unknown stream " + stream)
+
+
+class _LogCapture(logging.Handler):
+    """collects what XorEncodedFile.from_file logs: the two candidate lists and the candidates it tries, in order"""
+
+    _list = re.compile(r"^Found (nonce|eof_shellcode) offset candidates: \[(.*)\]$")
+    _try = re.compile(r"^Found common nonce offset: (-?\d+) \((\d+)\)$")
+
+    def __init__(self):
+        super().__init__(logging.DEBUG)
+        self.eofs, self.nonces, self.tried, self.counts = [], [], [], []
+
+    def emit(self, record):
+        msg = record.getMessage()
+        m = self._list.match(msg)
+        if m:
+            vals = [int(v) for v in m.group(2).split(",") if v.strip()]
+            if m.group(1) == "nonce":
+                self.nonces = vals
+            else:
+                self.eofs = vals
+            return
+        m = self._try.match(msg)
+        if m:
+            self.tried.append(int(m.group(1)))
+            self.counts.append(int(m.group(2)))
 
 
 # --------------------------------------------------------------------------------------
@@ -539,11 +682,13 @@ def oracle(stream, line, out):
             return None
         r = py_mz(roll_decode(raw[c + 8:], raw[c:c + 4]))
         return out == ("ok none" if r is None else f"ok {r}")
+    if stream == "histneg":
+        return negseek_plain_verdict(line, out) if NEGSEEK_IS_DEFECT else negseek_actual_verdict(line, out)
+    if stream == "detectlog":
+        return detectlog_verdict(line, out)
     if stream in ("detect", "detectm", "detectfull"):
         raw, maxrange = C.unhx(w[3]), int(w[2])
-        if stream == "detectfull" and int(w[4]) < len(raw):
-            return None          # the oracle's needle scan assumes a single block
-        exp = py_detect(raw, maxrange)
+        exp = py_detect(raw, maxrange, int(w[4]) if stream == "detectfull" else io.DEFAULT_BUFFER_SIZE)
         if exp is None:
             return None
         if exp == "ValueError":
@@ -552,7 +697,117 @@ def oracle(stream, line, out):
     return None
 
 
+def detectlog_verdict(line, out):
+    """independent statement of real_hits_characterised / size_offsets_exact / mostCommon_order / detect_sound_real"""
+    w, o = line.split(), out.split()
+    raw, maxrange, bs = C.unhx(w[3]), int(w[2]), int(w[4])
+    if o[0] == "exc":
+        if o[1] != "ValueError":
+            return False
+        res, lists = None, o[2:]
+    else:
+        res, lists = int(o[1]), o[4:]
+        if (int(o[2]), int(o[3])) != (res + 8, 0):
+            return False
+    eofs, nonces, tried, counts = (C.unints(t) for t in lists)
+    occ = occurrences(raw, MARKER)
+    hits = [e - 3 for e in eofs]
+    if any(h not in occ for h in hits) or any(a >= b for a, b in zip(hits, hits[1:])):
+        return False                                             # only true occurrences, ascending, no duplicates
+    if any(h not in hits for h in occ if maxrange == 0 or h + 3 <= maxrange):
+        return False                                             # every occurrence ending at or before the limit
+    if maxrange and any(h > 2 * maxrange for h in hits):
+        return False
+    if maxrange and bs >= maxrange + 3 and hits != [h for h in occ if h <= maxrange]:
+        return False                                             # exact when the buffer holds the limited range
+    if nonces != py_nonce_offsets(raw, None, maxrange):
+        return False
+    order = py_most_common(eofs + nonces)
+    cnt = collections.Counter(eofs + nonces)
+    if tried != order[:len(tried)] or counts != [cnt[c] for c in tried]:
+        return False
+    if any(c + 8 > len(raw) for c in tried):
+        return None                                              # view outside the file: outside the oracle's domain
+    verdicts = [py_mz(roll_decode(raw[c + 8:], raw[c:c + 4])) is not None for c in tried]
+    if res is None:
+        return tried == order and not any(verdicts)
+    return bool(tried) and tried[-1] == res and verdicts[-1] and not any(verdicts[:-1])
+
+
+def negseek_actual_verdict(line, out):
+    """independent statement of seek_exact / read_advances_everywhere: raw-offset arithmetic only"""
+    w = line.split()
+    kind, off, raw, ops = w[1], int(w[2]), C.unhx(w[3]), parse_ops(w[4])
+    base, q = off + 8, off + 8
+    plain = roll_decode(raw[base:], raw[off:off + 4])
+    outs = out.split(" ")
+    if len(outs) != len(ops):
+        return False
+    for op, o in zip(ops, outs):
+        if op[0] == "s":
+            r = op[1] + base if op[2] == 0 else (q + op[1] if op[2] == 1 else len(raw) + op[1])
+            if r >= 0:
+                exp, q = f"s{r}", r
+            elif op[2] == 0:
+                exp = "eValueError" if kind == "B" else "eOSError"
+            elif kind == "B":
+                exp, q = "s0", 0
+            else:
+                exp = "eOSError"
+            if o != exp:
+                return False
+        elif op[0] == "t":
+            if o != f"p{q - base}":
+                return False
+        else:
+            if not o.startswith("b"):
+                return False
+            data, n = bytes.fromhex(o[1:]), op[1]
+            if n is not None and n >= 0 and len(data) > n:
+                return False
+            if q >= base:                                        # at a logical position >= 0 the bytes are the plaintext slice
+                lp = q - base
+                if data != (plain[lp:] if n is None or n < 0 else plain[lp:lp + n]):
+                    return False
+            q += len(data)                                       # the position advances by exactly what was returned
+    return True
+
+
+def negseek_plain_verdict(line, out):
+    """the property text: the same history on a plain file of the same kind over the decoded bytes (seek values shifted)"""
+    from check import canon_exc
+
+    w = line.split()
+    kind, off, raw, ops = w[1], int(w[2]), C.unhx(w[3]), parse_ops(w[4])
+    pf = open_kind(kind, roll_decode(raw[off + 8:], raw[off:off + 4]))
+    try:
+        exp = []
+        for op in ops:
+            try:
+                if op[0] == "s":
+                    exp.append(f"s{pf.seek(op[1], op[2]) + off + 8}")
+                elif op[0] == "r":
+                    exp.append("b" + pf.read(-1 if op[1] is None else op[1]).hex())
+                else:
+                    exp.append(f"p{pf.tell()}")
+            except Exception as e:  # noqa: BLE001
+                exp.append("e" + canon_exc(e))
+        return out.split(" ") == exp
+    finally:
+        pf.close()
+
+
+def known(stream, line, known_list):
+    if stream == "histneg" and NEGSEEK_IS_DEFECT and any(k["id"] == NEGSEEK_ID for k in known_list):
+        return NEGSEEK_ID
+    return None
+
+
 def nontrivial(stream, line, out):
+    if stream == "histneg":
+        return any(t.startswith("p-") for t in out.split(" ")) or any(t.startswith("e") for t in out.split(" "))
+    if stream == "detectlog":
+        return out.split()[-2] != "l"                            # at least one candidate was tried
     if out.startswith("exc "):
         return stream.startswith("detect")  # a rejected input is a meaningful detection outcome
     if stream.startswith("hist"):
